@@ -144,6 +144,18 @@ def opt_flow(P, b, bb, depth=0):
                 if st["k"] == "assign" and st["rv"]["k"] in ("use",) and st["rv"]["op"].get("k") in ("copy", "move") and \
                         st["rv"]["op"]["place"]["l"] == l and not st["rv"]["op"]["place"]["p"]:
                     work.append(st["place"]["l"])
+                if st["k"] == "assign" and st["rv"]["k"] == "discriminant" and st["rv"]["place"]["l"] == l and not st["rv"]["place"]["p"]:
+                    # `let Some(x) = checked else { return Err(..) }` / `match checked { None => return Err(..), .. }`
+                    ds = mir.describe_switch(b, i)
+                    if ds and ds[0] == "variant":
+                        errs = tuple(eb for eb, v, rv in q.ok_err_assignments(b) if v == "Err")
+                        for tb, labs in ds[2].items():
+                            if "None" in labs:
+                                reach = b.reach_from(tb, without_blocks=errs)
+                                if errs and not any(b.term(x)["k"] == "return" for x in reach) and i not in reach:
+                                    out.append(("?", "None arm returns Err"))
+                                else:
+                                    out.append(("bad", "the None arm goes on without an error"))
             t = blk["term"]
             if t["k"] != "call":
                 continue
@@ -163,6 +175,25 @@ def opt_flow(P, b, bb, depth=0):
     if not out:
         out.append(("bad", "result never consumed"))
     return out
+
+
+def _acc_leaves_checked(tree):
+    """every non-constant leaf of the accumulator expression is the payload of a checked_* step"""
+    leaves = []
+
+    def walk(x):
+        if x[0] == "phi":
+            for a in x[1]:
+                walk(a)
+        elif x[0] == "try":
+            walk(x[1])
+        else:
+            leaves.append(x)
+    walk(tree)
+    nonconst = [x for x in leaves if x[0] != "const"]
+    return bool(nonconst) and all(x[0] == "call" and short(x[1]).startswith("checked_") or
+                                  (x[0] == "place" and all("checked_" in str(r) and ".#Some.0" in str(r) for r in x[1]))
+                                  for x in nonconst)
 
 
 def overflow_is_error(P, chk, bodies):
@@ -216,7 +247,7 @@ def overflow_is_error(P, chk, bodies):
                     elif x[0] == "try":
                         walk(x[1])
                 walk(other[0])
-                okv = "ok_or" in names or "ok_or_else" in names
+                okv = "ok_or" in names or "ok_or_else" in names or _acc_leaves_checked(other[0])
         chk.require(okv, R_ERR, "from_str|value = sign * checked accumulator", fs.loc(bb), detail, "sign * mantissa")
 
 
@@ -253,6 +284,22 @@ def token_rule(P, chk):
         for bb, t in c.calls():
             if short(callee_def(t)) == "is_ascii_digit":
                 digit = True
+        for i in c.live_blocks():
+            t = c.term(i)
+            if t["k"] == "switch" and t.get("dty") == "char":
+                # `matches!(c, '-' | ',' | '.')` is a switch on the character value
+                for v, tb in t["targets"]:
+                    try:
+                        chars.add(chr(int(v)))
+                    except (ValueError, OverflowError):
+                        pass
+    if not digit and {"0", "9"} <= chars:
+        # `'0'..='9'` as a range pattern: two comparisons against the ends of the digit range
+        cmps = sum(1 for c in clo for blk in c.blocks for st in blk["stmts"]
+                   if st["k"] == "assign" and st["rv"]["k"] == "binop" and st["rv"]["op"] in ("Le", "Lt", "Ge", "Gt"))
+        if cmps >= 2:
+            digit = True
+            chars -= {"0", "9"}
     chk.require(digit and chars == {"-", ",", "."}, R_TOKEN, "primitive::pretty_decimal|token characters are digits , . -", b.loc(),
                 "token class is digits=%s plus %s" % (digit, sorted(chars)), "is_ascii_digit() || '-' || ',' || '.'")
 
@@ -276,13 +323,23 @@ def _rejecting_switch(b, exit_bb, loop_blocks, oks, candidates):
         for tb, labs in labels.items():
             if not any(o in b.reach_from(tb) for o in oks):
                 return s, labs
+        # `if let Some(p) = x { if p != .. { return Err } }`: the test sits under one arm of a test of the same variable
+        for tb, labs in labels.items():
+            for s2, kind2, labels2, ct2 in candidates:
+                if s2 == s or s2 in loop_blocks or s2 not in b.reach_from(tb):
+                    continue
+                if any(o in b.reach_from(tb, without_blocks=(s2,)) for o in oks):
+                    continue
+                for tb2, labs2 in labels2.items():
+                    if not any(o in b.reach_from(tb2) for o in oks):
+                        return s2, labs2
     return None
 
 
 def scanner_guards(P, chk):
     b = P.body(FROM_STR)
-    scale = q.local_by_name(b, "scale")
-    cpos = q.local_by_name(b, "comma_pos")
+    scale = q.local_by_name(b, "scale", "std::option::Option<")
+    cpos = q.local_by_name(b, "comma_pos", "std::option::Option<")
     if scale is None or cpos is None:
         chk.anchor_missing("from_str: locals `scale` / `comma_pos` not found (the scanner's state variables)")
         return
